@@ -28,3 +28,94 @@ CHECK = GraphCheck(
     with_real=True,
     use_byteflow=True,
 )
+
+
+# ---------------------------------------------------------------- pre-declared back edges
+# "any graph the library can produce" includes graphs loaded with back edges
+# already declared (the YAML front end allows it, the repository's tests do it)
+# and restructured afterwards.
+import random as _random
+
+from .. import core as _core, attach as _attach, drivers as _drivers
+from ..workloads import graphs as _graphs
+from .base import ShardAcc as _ShardAcc
+
+_plan0 = CHECK.plan
+_run0 = CHECK.run_shard
+
+
+def _plan(tier, seed):
+    shards = _plan0(tier, seed)
+    total = 600 if tier == "quick" else 20000
+    per = 200 if tier == "quick" else 2000
+    for start in range(0, total, per):
+        shards.append({"kind": "predeclared", "seed": seed, "start": start, "count": per,
+                       "tier": tier})
+    return shards
+
+
+def _declare_some_backedge(scfg, rng):
+    """declare the arc u->v of a DFS back edge as back edge before any stage."""
+    g = scfg.graph
+    color = {}
+    back = []
+
+    def dfs(u):
+        color[u] = 1
+        for v in g[u]._jump_targets:
+            if color.get(v) == 1:
+                back.append((u, v))
+            elif v not in color:
+                dfs(v)
+        color[u] = 2
+
+    from ..oracles.itercheck import level_head
+    heads = level_head(scfg)
+    if len(heads) != 1:
+        return None
+    import sys
+    sys.setrecursionlimit(10000)
+    dfs(heads[0])
+    if not back:
+        return None
+    u, v = rng.choice(back)
+    g[u] = g[u].declare_backedge(v)
+    return (u, v)
+
+
+def _run_predeclared(spec):
+    _attach.install(CHECK.profile)
+    acc = _ShardAcc("C17")
+    for i in range(spec["start"], spec["start"] + spec["count"]):
+        rng = _random.Random(f"c17p/{spec['seed']}/{i}")
+        cls = rng.choice(["loop", "struct", "rand_small", "rand"])
+        g = _graphs.make_case(cls, spec["seed"], i)
+        if g is None:
+            continue
+        ctx = _core.set_ctx(_core.Ctx(None))
+        _attach.ACTIVE.clear()
+        _attach.ACTIVE.update({"C17"})
+        _attach.OPTS["lenient"] = True
+        try:
+            scfg = _drivers.make_scfg(g, "basic")
+            be = _declare_some_backedge(scfg, rng)
+            if be is None:
+                continue
+            done = _drivers.run_stages(scfg, "JLB", ctx)
+        finally:
+            _attach.OPTS["lenient"] = False
+        case = {"kind": "predeclared", "g": g, "backedge": list(be)}
+        acc.add_ctx(ctx, case, nontrivial_hash=_core.sha([g, be]) if done else None,
+                    props={"C17"}, sample=(acc.evaluations % 97 == 0))
+        acc.counters["class.predeclared_backedge"] += 1
+    return acc.result()
+
+
+def _run_shard(spec):
+    if spec["kind"] == "predeclared":
+        return _run_predeclared(spec)
+    return _run0(spec)
+
+
+CHECK.plan = _plan
+CHECK.run_shard = _run_shard
